@@ -42,7 +42,7 @@ func (r *Run) mutating(op *Op) bool {
 
 // armCrash is called at the start of a mutating op in crash-enumeration runs.
 func (r *Run) armCrash(op *Op) {
-	if !r.Plan.Config.CrashAll || !r.mutating(op) {
+	if !r.Plan.Config.CrashAll || !r.mutating(op) || r.curOp < r.Plan.Config.CrashFrom {
 		return
 	}
 	r.me().inflight = &inflightOp{desc: opSummary(op), pre: r.M.Clone()}
@@ -300,7 +300,11 @@ func (r *Run) examineCrashes() {
 					what = "a key that was never acknowledged appears after a kill"
 				}
 				r.closeCrashEnv(env, dir)
-				r.fail(cl, fmt.Sprintf("%s (%s) %s", what, crashClass(cp), r.bctx()),
+				sig := fmt.Sprintf("%s (%s) %s", what, crashClass(cp), r.bctx())
+				if cl == "crash.atomic" {
+					sig = fmt.Sprintf("%s %s", what, r.bctx()) // one finding per backend class, wherever the kill lands
+				}
+				r.fail(cl, sig,
 					fmt.Sprintf("%s/%q = %s or %s", bn, kn, descEnt(ePre), descEnt(ePost)), fmt.Sprintf("%s: read %s, listed %q", cp.where, ks, listed[kn]))
 			}
 		}
